@@ -218,8 +218,19 @@ pub fn operation(p: &mut Parser<'_>, mut skip: Skip) -> Result<Option<Skip>> {
             match priority.cmp(&prev.1) {
                 Ordering::Less => {
                     p.close_at(&prev.0, OPERATION)?;
-                    *prev = (prev.0.clone(), priority, extra);
-                    continue;
+                    let last = prev.0.clone();
+                    stack.pop();
+
+                    // The closed operation is an operand of the enclosing
+                    // level if that binds at least as loosely as the new
+                    // operator, otherwise it starts a new level.
+                    match stack.last() {
+                        Some(next) if next.1 >= priority => continue,
+                        _ => {
+                            stack.push((last, priority, extra));
+                            break;
+                        }
+                    }
                 }
                 Ordering::Greater => {
                     stack.push((cur, priority, extra));
